@@ -17,6 +17,11 @@ pub struct Case {
     pub last8: Hex,
     pub key: u64,
     pub place: Place,
+    /// Some(x): an end-tag look-alike (type 0, size 8) is planted at an 8-aligned
+    /// interior offset chosen by x (the region's interior is otherwise marker
+    /// bytes that never look like an end tag)
+    #[serde(default)]
+    pub decoy: Option<u16>,
 }
 
 pub const MAX_TS: u32 = 1 << 20;
@@ -25,6 +30,14 @@ pub fn region(c: &Case) -> Vec<u8> {
     let len = r8(c.ts as usize).max(8);
     let mut v: Vec<u8> = (0..len).map(|i| marker(c.key, i)).collect();
     let ts = c.ts as usize;
+    if let Some(x) = c.decoy {
+        // interior slots: offsets 8, 16, .. , len-16
+        if len >= 24 {
+            let slots = (len - 16) / 8;
+            let at = 8 + 8 * (((x as usize) * slots) >> 16);
+            v[at..at + 8].copy_from_slice(&mb2_model::encode::END_TAG);
+        }
+    }
     if ts >= 16 && ts <= len && c.last8.0.len() == 8 {
         v[ts - 8..ts].copy_from_slice(&c.last8.0);
     }
@@ -126,19 +139,20 @@ fn strategy(_: &Ctx) -> BoxedStrategy<Case> {
         last8,
         any::<u64>(),
         prop_oneof![4 => Just(Place::End), 1 => Just(Place::Start)],
+        prop_oneof![2 => Just(None), 1 => any::<u16>().prop_map(Some)],
     )
-        .prop_map(|(null, ts, reserved, last8, key, place)| Case { null, ts, reserved, last8, key, place })
+        .prop_map(|(null, ts, reserved, last8, key, place, decoy)| Case { null, ts, reserved, last8, key, place, decoy })
         .boxed()
 }
 
 fn enumerate(ctx: &Ctx) -> Box<dyn Iterator<Item = Case>> {
     let mut v = Vec::new();
-    v.push(Case { null: true, ts: 0, reserved: 0, last8: Hex(vec![0; 8]), key: 0, place: Place::End });
+    v.push(Case { null: true, ts: 0, reserved: 0, last8: Hex(vec![0; 8]), key: 0, place: Place::End, decoy: None });
     let variants = last8_variants();
     for ts in 0u32..=72 {
         for l in &variants {
             for reserved in [0u32, 0xDEAD_BEEF] {
-                v.push(Case { null: false, ts, reserved, last8: Hex(l.to_vec()), key: ts as u64, place: Place::End });
+                v.push(Case { null: false, ts, reserved, last8: Hex(l.to_vec()), key: ts as u64, place: Place::End, decoy: if reserved == 0 { None } else { Some((ts as u16).wrapping_mul(2657)) } });
             }
         }
     }
@@ -147,7 +161,7 @@ fn enumerate(ctx: &Ctx) -> Box<dyn Iterator<Item = Case>> {
         for d in 0u32..8 {
             let ts = 8 * k - d;
             for l in &variants[..2] {
-                v.push(Case { null: false, ts, reserved: 0, last8: Hex(l.to_vec()), key: ts as u64, place: if k % 5 == 0 { Place::Start } else { Place::End } });
+                v.push(Case { null: false, ts, reserved: 0, last8: Hex(l.to_vec()), key: ts as u64, place: if k % 5 == 0 { Place::Start } else { Place::End }, decoy: if k % 3 == 0 { Some((ts as u16).wrapping_mul(40503)) } else { None } });
             }
         }
     }
@@ -262,7 +276,7 @@ pub fn subs() -> Vec<Box<dyn Sub>> {
     }),
     Box::new(PropSub::<Case> {
         name: "load",
-        rule: "BootInformation::load on a guarded mapping of max(8, r8(total size)) bytes; enumerated: null, every total-size word 0..=72 x 8 end-tag variants x 2 reserved words, every multiple of 8 up to 1024 (thorough 4096) with its 7 lower neighbours x {valid, wrong-type} end tag; generated: sizes up to 1 MiB, random reserved/last-8-bytes. Oracle: the statement's precedence + start/end/size equalities. Non-trivial = not (valid size, valid end tag, reserved 0); distinct by (size word, reserved, last 8 bytes)",
+        rule: "BootInformation::load on a guarded mapping of max(8, r8(total size)) bytes; enumerated: null, every total-size word 0..=72 x 8 end-tag variants x 2 reserved words, every multiple of 8 up to 1024 (thorough 4096) with its 7 lower neighbours x {valid, wrong-type} end tag; generated: sizes up to 1 MiB, random reserved/last-8-bytes; a third of all cases carries an end-tag look-alike at a random interior offset. Oracle: the statement's precedence + start/end/size equalities. Non-trivial = not (valid size, valid end tag, reserved 0); distinct by (size word, reserved, last 8 bytes)",
         profiles: Profiles::Both,
         quick: 12000,
         thorough: 300000,
